@@ -6,6 +6,17 @@
 /// ## Notes
 /// - Block parsing relies on `Indent` / `Dedent` layout tokens produced by the lexer.
 impl<'a> Parser<'a> {
+    /// `target op= rhs` on a field/index is desugared to `target = target op rhs`; a binary right-hand side is one
+    /// operand of the new expression and must stay grouped (`a.f -= b - c` is `a.f - (b - c)`).
+    fn group_compound_rhs(rhs: Spanned<Expr>) -> Spanned<Expr> {
+        if matches!(rhs.node, Expr::Binary(..)) {
+            let span = rhs.span;
+            Spanned::new(Expr::Paren(Box::new(rhs)), span)
+        } else {
+            rhs
+        }
+    }
+
     // ========================================================================
     // Statements
     // ========================================================================
@@ -339,7 +350,10 @@ impl<'a> Parser<'a> {
                         CompoundOp::FloorDiv => BinaryOp::FloorDiv,
                         CompoundOp::Mod => BinaryOp::Mod,
                     };
-                    let new_value = Spanned::new(Expr::Binary(Box::new(field_expr), bin_op, Box::new(rhs)), expr.span);
+                    let new_value = Spanned::new(
+                        Expr::Binary(Box::new(field_expr), bin_op, Box::new(Self::group_compound_rhs(rhs))),
+                        expr.span,
+                    );
                     return Ok(Statement::FieldAssignment(FieldAssignmentStmt {
                         target_span: expr.span,
                         object: *object,
@@ -358,7 +372,10 @@ impl<'a> Parser<'a> {
                         CompoundOp::FloorDiv => BinaryOp::FloorDiv,
                         CompoundOp::Mod => BinaryOp::Mod,
                     };
-                    let new_value = Spanned::new(Expr::Binary(Box::new(index_expr), bin_op, Box::new(rhs)), expr.span);
+                    let new_value = Spanned::new(
+                        Expr::Binary(Box::new(index_expr), bin_op, Box::new(Self::group_compound_rhs(rhs))),
+                        expr.span,
+                    );
                     return Ok(Statement::IndexAssignment(IndexAssignmentStmt {
                         object: *object,
                         index: *index,
